@@ -6,7 +6,7 @@ TRUSTED = common.TRUSTED
 
 def run(ctx):
     # whole graphs offered together (release_taskgraphs / lookahead): co-decided parents and children
-    built, worlds, results = common.common_prelude(ctx, ctx.pid, 80, 1200, profile="graph")
+    built, worlds, results = common.common_prelude(ctx, ctx.pid.split("_")[0] + "_ilp", 80, 1200, profile="graph")
     common.stream_csys(ctx, worlds, results)
     common.stream_plan(ctx, worlds, results)
     common.run_sat_monitor(ctx, worlds, results)
